@@ -68,8 +68,25 @@ func coqBool(b bool) string {
 	}
 	return "false"
 }
-func coqHex(b []byte) string { return `(hx "` + hex.EncodeToString(b) + `")` }
-func coqN(n uint64) string   { return fmt.Sprintf("%d", n) }
+
+// coqHex prints an octet string as a Gallina term.  Long strings are split so
+// that no string literal is deeper than 1024 constructors.
+func coqHex(b []byte) string {
+	const chunk = 512
+	if len(b) <= chunk {
+		return `(hx "` + hex.EncodeToString(b) + `")`
+	}
+	var parts []string
+	for i := 0; i < len(b); i += chunk {
+		j := i + chunk
+		if j > len(b) {
+			j = len(b)
+		}
+		parts = append(parts, `hx "`+hex.EncodeToString(b[i:j])+`"`)
+	}
+	return "(hxs [" + strings.Join(parts, "; ") + "])"
+}
+func coqN(n uint64) string { return fmt.Sprintf("%d", n) }
 func coqZ(n int64) string {
 	if n < 0 {
 		return fmt.Sprintf("(%d)%%Z", n)
@@ -215,13 +232,16 @@ func (r *Run) Finish() error {
 			w.P("From V Require Import %s.", m)
 		}
 		w.P("Open Scope N_scope.")
+		for i := start; i < end; i++ {
+			w.P("Definition c%d : bool := Eval vm_compute in (%s).", i-start, r.caseExprs[i])
+		}
 		w.P("Definition cases : list (N * bool) := [")
 		for i := start; i < end; i++ {
 			sep := ";"
 			if i == end-1 {
 				sep = ""
 			}
-			w.P(" (%d, %s)%s", i-start, r.caseExprs[i], sep)
+			w.P(" (%d, c%d)%s", i-start, i-start, sep)
 		}
 		w.P("].")
 		w.P("Definition M := Eval vm_compute in mismatches cases.")
